@@ -14,9 +14,10 @@ static const char *buftexts[] = {
 	"foo(bar, baz);\nif (a) { b[1] = c; }\n}\n",
 	"a.b..c  d\n;;\nab12_x\n",
 	"l0\n  l1\nl2\n\nl4\n\tl5\nl6\nl7\n  l8\nl9\nl10\nl11 end\n",
+	"ab \n \nc.\n\t \n\nd\n  \n",		/* lines holding only blanks are not empty lines */
 };
-#define NBUF 8
-static const int buf_rows[] = {24, 24, 24, 24, 24, 24, 24, 6};
+#define NBUF 9
+static const int buf_rows[] = {24, 24, 24, 24, 24, 24, 24, 6, 24};
 
 struct mop { char bytes[12]; int key; unsigned arg; int cnt; };
 static struct mop ops[400];
@@ -249,8 +250,8 @@ int main(int argc, char **argv)
 				run_config(b, 0, rv_last(&tb, 0), d + 1, 1);
 			if ((idx++ % nv_nshards) == nv_shard)
 				run_config(b, tb.n - 1, rv_last(&tb, tb.n - 1), d + 1, 1);
-			if (nv_thorough && (idx++ % nv_nshards) == nv_shard)
-				run_config(b, 1, 1, d + 1, 1);
+			if (nv_thorough && tb.n > 1 && (idx++ % nv_nshards) == nv_shard)
+				run_config(b, 1, rv_last(&tb, 1) < 1 ? rv_last(&tb, 1) : 1, d + 1, 1);
 		}
 	}
 	/* pairs over the full alphabet from the first buffer (thorough: three buffers) */
